@@ -39,6 +39,13 @@ APIS = [
 
 
 def c17_task(n_targets):
+    # [n, "binary-source"]: the source is a generator script (its output is what is piped to
+    # `config generate`), and it is not valid UTF-8: a Latin-1 comment and a few raw bytes. monorail only
+    # ever hashes the source, so this is as good a source as any.
+    arg = n_targets
+    binary_source = isinstance(n_targets, (list, tuple))
+    if binary_source:
+        n_targets = n_targets[0]
     s = sc.Scratch("c17cli")
     try:
         ports = (s.port(), s.port())
@@ -54,21 +61,25 @@ def c17_task(n_targets):
         r = sc.Repo(s, "r", src["targets"], commands={"pkg/t0000": {"build": "x"}}, ports=False)
         os.unlink(r.path("Monorail.json"))
         src_text = json.dumps(src, indent=2)
-        r.write("Monorail.src.json", src_text)
+        pre = b"#!/usr/bin/env python3\n# g\xe9n\xe9rateur de configuration \xff\xfe\x80\nCONFIG = r\"\"\"\n" if binary_source else b""
+
+        def wsrc(text):
+            r.write("Monorail.src.json", pre + text.encode())
+        wsrc(src_text)
         gen = r.mr("-f", r.path("Monorail.json"), "config", "generate", stdin=src_text.encode())
         if gen.code != 0:
-            return {"judged": 0, "v": [("generate-failed", "config generate failed: %s" % gen.err[:300], {"cli_c17": n_targets})]}
+            return {"judged": 0, "v": [("generate-failed", "config generate failed: %s" % gen.err[:300], {"cli_c17": arg})]}
         # generate once more into the same path from a LONGER source first and then from the real one:
         # the output and lockfile of the earlier, longer generation must be replaced completely
         longer = dict(src)
         longer["sequences"] = {"padding-%03d" % i: ["build", "test"] for i in range(60)}
         longer_text = json.dumps(longer, indent=2)
-        r.write("Monorail.src.json", longer_text)
+        wsrc(longer_text)
         r.mr("-f", r.path("Monorail.json"), "config", "generate", stdin=longer_text.encode())
-        r.write("Monorail.src.json", src_text)
+        wsrc(src_text)
         gen = r.mr("-f", r.path("Monorail.json"), "config", "generate", stdin=src_text.encode())
         if gen.code != 0:
-            return {"judged": 0, "v": [("generate-failed", "second config generate failed: %s" % gen.err[:300], {"cli_c17": n_targets})]}
+            return {"judged": 0, "v": [("generate-failed", "second config generate failed: %s" % gen.err[:300], {"cli_c17": arg})]}
         r.commit("generated")
         files = {n: open(r.path(n), "rb").read() for n in ("Monorail.json", "Monorail.src.json", "Monorail.lock")}
         size = len(files["Monorail.json"])
@@ -80,7 +91,7 @@ def c17_task(n_targets):
             res = r.mr(*argv, env=r.trace_env())
             judged += 1
             if res.code != 0:
-                v.append(("untouched-api-fails", "%s with untouched files (generated size %d): exit %s %s" % (name, size, res.code, res.err[:200])))
+                v.append(("untouched-api-fails", "%s with untouched files (generated size %d%s): exit %s %s" % (name, size, ", source not valid UTF-8" if binary_source else "", res.code, res.err[:200])))
         # prepared state for the tamper runs: a checkpoint and a completed run exist
         r.mr("checkpoint", "update")
         r.mr("run", "-c", "build", env=r.trace_env())
@@ -138,7 +149,7 @@ def c17_task(n_targets):
         judged += 1
         if res.code != 0:
             v.append(("restored-api-fails", "analyze after restoring every file: exit %s %s" % (res.code, res.err[:200])))
-        return {"judged": judged, "v": [(sig, d, {"cli_c17": n_targets}) for sig, d in v], "size": size}
+        return {"judged": judged, "v": [(sig, d, {"cli_c17": arg}) for sig, d in v], "size": size}
     except common.EngineError as e:
         return {"engine_error": str(e)}
     except Exception:
@@ -635,6 +646,49 @@ def c08_repeat_task(arg):
         s.cleanup()
 
 
+def c08_latest_task(arg):
+    """`log show` without --id after every one of a series of runs in one output directory (more runs than
+    are retained, so that the numbering wraps): it prints the logs of the run that just ended - its
+    tasks, its bytes - and nothing of an older one. Commands alternate so that an older run's logs
+    would show tasks the latest run never had."""
+    retained, nruns = arg
+    s = sc.Scratch("c08latest")
+    try:
+        ts = [{"path": "t0"}, {"path": "t1"}]
+        r = sc.Repo(s, "r", ts, commands={t["path"]: {"build": "x", "test": "x"} for t in ts}, init_git=False, max_retained_runs=retained)
+        v = []
+        judged = 0
+        for i in range(1, nruns + 1):
+            cmd = "test" if i % 3 == 0 else "build"
+            want = {}
+            for t in ("t0", "t1"):
+                so = ("run %d: %s %s stdout\n" % (i, t, cmd)).encode() * (1 + (nruns - i) * 3)   # later runs write less
+                se = ("run %d: %s %s stderr\n" % (i, t, cmd)).encode()
+                r.set_script(t, cmd, ["out " + so.hex(), "err " + se.hex(), "exit 0"])
+                want[("stdout.zst", t, cmd)] = so
+                want[("stderr.zst", t, cmd)] = se
+            res = r.mr("run", "-c", cmd, env=r.trace_env())
+            if res.code != 0 or res.json() is None:
+                return {"judged": judged + 1, "v": [("e2e-run-failed", "run %d of %d (max_retained_runs %s): exit %s %s" % (i, nruns, retained, res.code, res.err[:200]), {"cli_c08_latest": list(arg)})]}
+            for args in (["--stdout", "--stderr"], ["--stdout"]):
+                ls = r.mr("log", "show", *args)
+                judged += 1
+                got = p_hist.parse_log_show(ls.out)
+                exp = sorted((f, t, c, b) for (f, t, c), b in want.items() if ("--" + f.split(".")[0]) in args)
+                if ls.code != 0 or got != exp:
+                    v.append(("e2e-log-show-not-latest", "after run %d of a series (max_retained_runs %s) log show %s prints %s, the run wrote %s (exit %s)" % (
+                        i, retained, " ".join(args), [(b[0], b[1], b[2], b[3][:12]) for b in got], [(b[0], b[1], b[2], b[3][:12]) for b in exp], ls.code)))
+            if v:
+                break
+        return {"judged": judged, "v": [(sig, d, {"cli_c08_latest": list(arg)}) for sig, d in v[:3]]}
+    except common.EngineError as e:
+        return {"engine_error": str(e)}
+    except Exception:
+        return {"engine_error": traceback.format_exc()[-1200:]}
+    finally:
+        s.cleanup()
+
+
 def c08_show_filters_task(_):
     """`log show` with every combination of stream flags, target filter and command filter on one stored
     run (2 targets x 3 commands - one of them named `build.release`, a name with a dot that shares its stem with `build` - one stream of one task empty): one header per selected non-empty log
@@ -727,6 +781,50 @@ def c08_tiny_task(_):
         s.cleanup()
 
 
+def c18_defaults_task(which):
+    """Configurations that leave optional members out (one server port given, the other left to its
+    default; a timeout given on one side only; an empty `server`): the same value with the members of
+    every object in sorted, reverse-sorted and reversed order gives the same `config show` (which
+    prints every default filled in), the same groups and the same analysis."""
+    s = sc.Scratch("c18def")
+    try:
+        port = s.port()
+        servers = {
+            "lock-port-only": {"lock": {"port": port}, "log": {}},
+            "log-port-only": {"lock": {}, "log": {"port": port}},
+            "lock-port-log-host": {"lock": {"port": port, "host": "127.0.0.1"}, "log": {"host": "127.0.0.1"}},
+            "lock-timeout-only": {"lock": {"bind_timeout_ms": 1234}, "log": {}},
+            "empty-server": {},
+        }
+        val = {"targets": [{"path": "a"}, {"uses": ["a"], "path": "b"}], "server": servers[which], "max_retained_runs": 4}
+        r = sc.Repo(s, "r", val["targets"], ports=False, init_git=False)
+        sers = [("as-written", json.dumps(val)), ("deep-sorted-keys", json.dumps(deep_order(val, "sorted"), indent=1)),
+                ("deep-reverse-sorted-keys", json.dumps(deep_order(val, "reverse-sorted"))), ("deep-reversed-keys", json.dumps(deep_order(val, "reversed"), indent=2))]
+        v = []
+        judged = 0
+        ref = None
+        for name, text in sers:
+            r.write("Monorail.json", text)
+            outs = []
+            for api, argv in (("config show", ["config", "show"]), ("target show -g", ["target", "show", "-g"]), ("analyze", ["analyze", "--target-groups"])):
+                res = r.mr(*argv)
+                judged += 1
+                outs.append((res.code, strip_ts(res.json())))
+            if ref is None:
+                ref = outs
+            elif outs != ref:
+                i = [k for k in range(len(outs)) if outs[k] != ref[k]][0]
+                v.append(("serialisation-changes-output", "server = %s written %s: %s prints %s, as written first it printed %s" % (
+                    json.dumps(servers[which]), name, ("config show", "target show -g", "analyze")[i], json.dumps(outs[i])[:300], json.dumps(ref[i])[:300])))
+        return {"judged": judged, "v": [(sig, d, {"cli_c18_defaults": which}) for sig, d in v[:3]]}
+    except common.EngineError as e:
+        return {"engine_error": str(e)}
+    except Exception:
+        return {"engine_error": traceback.format_exc()[-1200:]}
+    finally:
+        s.cleanup()
+
+
 def c18_checkpoint_task(_):
     """A checkpoint is recorded, one target changes, and only then the configuration file is re-serialised
     (same value, new bytes, new modification time): analyze and run give what they gave before."""
@@ -772,13 +870,14 @@ def c18_checkpoint_task(_):
 def run_slice(prop, tier):
     if prop == "C17":
         sizes = [3, 60, 400] if tier == "quick" else [3, 60, 160, 400, 1500]
-        res = common.pmap(c17_task, sizes)
+        res = common.pmap(c17_task, sizes + [[3, "binary-source"]])
         res += common.pmap(c17_elsewhere_task, ["subdir", "outside"])
         res += common.pmap(c17_regen_from_generated_task, [0])
         res += common.pmap(c17_names_task, ["Monorail.prod.json", "monorail.ci.v2.json", "cfg.json"])
     elif prop == "C18":
         res = common.pmap(c18_task, [3, 40] if tier == "quick" else [3, 40, 300])
         res += common.pmap(c18_checkpoint_task, [0])
+        res += common.pmap(c18_defaults_task, ["lock-port-only", "log-port-only", "lock-port-log-host", "lock-timeout-only", "empty-server"])
     elif prop == "C08":
         scripts = c08_scripts(tier)
         tasks = [(n, l, e, k) for (n, l, e) in scripts for k in ((1, 3) if tier == "quick" else (1, 2, 3, 5))]
@@ -789,6 +888,7 @@ def run_slice(prop, tier):
         res += common.pmap(c08_repeat_task, [(how, k) for how in ("-c twice", "sequence twice", "sequence mix", "slot reuse") for k in (1, 3)])
         res += common.pmap(c08_show_filters_task, [0])
         res += common.pmap(c08_tiny_task, [0])
+        res += common.pmap(c08_latest_task, [(None, 13), (2, 5), (3, 8)] if tier == "quick" else [(None, 23), (1, 4), (2, 7), (3, 11), (5, 13)])
     else:
         return 0, []
     errs = [r["engine_error"] for r in res if "engine_error" in r]
@@ -816,6 +916,8 @@ def merge(result, prop, tier):
 def replay_case(prop, case):
     if "cli_c08_tiny" in case:
         r = c08_tiny_task(0)
+    elif "cli_c08_latest" in case:
+        r = c08_latest_task(tuple(case["cli_c08_latest"]))
     elif "cli_c08_show" in case:
         r = c08_show_filters_task(0)
     elif "cli_c08_repeat" in case:
@@ -828,6 +930,8 @@ def replay_case(prop, case):
         r = c17_elsewhere_task(case["cli_c17_else"])
     elif "cli_c17" in case:
         r = c17_task(case["cli_c17"])
+    elif "cli_c18_defaults" in case:
+        r = c18_defaults_task(case["cli_c18_defaults"])
     elif "cli_c18_cp" in case:
         r = c18_checkpoint_task(0)
     elif "cli_c18" in case:
